@@ -5,6 +5,8 @@ cd /verif
 ids=${@:-$(ls seeded)}
 for id in $ids; do
   prop=${id:0:3}
+  # (a seed made for one property may in fact break a neighbouring one: meta.json names the check that owns it)
+  alt=$(python3 -c "import json,sys; print(json.load(open('/verif/seeded/$id/meta.json')).get('regress_with',''))" 2>/dev/null); [ -n "$alt" ] && prop=$alt
   if [ -n "$(git -C /repo status --short)" ]; then echo "REPO NOT CLEAN"; exit 2; fi
   git -C /repo apply /verif/seeded/$id/patch.diff || { echo "$id STALE (patch does not apply)"; continue; }
   out=$(./check $prop 2>&1); rc=$?
